@@ -77,6 +77,17 @@ def check_thresholds(ctx: Ctx):
             if isinstance(other, ast.Name):
                 tname = other.id
     if tname is None:
+        # the comparison exists but the mask is modified before it becomes the binary image?
+        for c_ in [c for c in fv.calls() if (fv.callee(c) or "").endswith("ScalarField") and len(c.args) >= 2 and isinstance(c.args[1], ast.Name)]:
+            defs_ = [d for d in fv.defs_reaching(c_.args[1].id, c_) if d.stmt is not None]
+            cmp_defs = [d for d in defs_ if isinstance(fv.value_of_def(d, c_.args[1].id), ast.Compare) and data in U(fv.value_of_def(d, c_.args[1].id))]
+            mods_ = [d for d in defs_ if d not in cmp_defs]
+            if cmp_defs and mods_:
+                ctx.violate("GUARDSHAPE", f"{site}:mask", (fi, mods_[0].stmt),
+                            f"`{U(mods_[0].stmt)[:80]}` modifies the binary image after the comparison with the threshold: cells exceeding the threshold are cleared "
+                            "(e.g. pieces of a droplet cut by a periodic boundary that are individually below the size limit), so the located droplets are not those of the image of cells exceeding the threshold")
+                ctx.undecided("THRESH", site, fi, "threshold used by the mask comparison not resolved (mask modified)")
+                return
         ctx.undecided("THRESH", site, fi, "threshold used by the mask comparison not found")
         return
     st_mask = stmt_index(fv).statement(masks[0])
